@@ -395,3 +395,92 @@ Check (fun K pssm => eq_refl :
 Check (fun (pssm : list (list F32.t)) (s : list nat) (i N : nat) => eq_refl :
   SCO.score_def F32.add F32.zero N pssm s i =
   fold_left F32.add (SCO.terms_from F32.zero 0 pssm (fun j => nth (i + j) s N)) F32.zero).
+
+(* ================= non-vacuity: the README example ================= *)
+
+(* the 64-nt target sequence of /repo/README.md as text, its 15-row scoring matrix (bit
+   patterns of coq/score/ReadmeExample.v, -inf wildcard column), the dispatching pipelines of
+   the README calls (EncodedSequence::encode, to_striped, configure), threshold -10.0 *)
+Module Readme.
+  Import LMScore.ReadmeExample.
+  Definition text : list byte := map (fun i => nth i [x41; x43; x54; x47; x4e] x4e) readme_seq.
+  Definition thr : F32.t := F32.of_bits 3240099840.            (* -10.0 *)
+  Definition junk : nat -> EM.sym := fun _ => 0%N.
+  Definition enc : EI.pipeline := EI.PDispatch EM.DAvx2.
+  Definition be : SA.backend := SA.BDispatch LMStripe.NetModel.AAvx2.
+  Definition pads : nat -> list Z := fun _ => repeat 0%Z 27.    (* DenseMatrix<u8, 5> rows are 32 bytes *)
+  Definition scan (am : arm) (B : nat) : res (list fhit) :=
+    e2e_scan GA.dna 32 enc junk text be SM.s_default readme_pssm am thr B.
+  Definition bits (l : res (list fhit)) : list (nat * Z) :=
+    map (fun h => (fst h, F32.to_bits (snd h))) (unres [] l).
+End Readme.
+
+Example e2e_readme_encodes :
+  encode_nat Readme.enc GA.dna Readme.junk Readme.text = Ok LMScore.ReadmeExample.readme_seq.
+Proof. vm_compute. reflexivity. Qed.
+
+(* every hypothesis of e2e_text_to_hits_well_conditioned / e2e_max_well_conditioned holds *)
+Example e2e_readme_hypotheses :
+  (GA.dna = GA.dna \/ GA.dna = GA.protein) /\ 1 <= 32 /\ SA.backend_typed 32 Readme.be = true /\
+  SS.wf_matrix 32 (SM.mat SM.s_default) /\
+  Forall (LMEncode.EncodeProofs.in_abc GA.dna) Readme.text /\
+  1 <= length LMScore.ReadmeExample.readme_pssm /\
+  Forall (fun row : list F32.t => length row = EM.a_K GA.dna) LMScore.ReadmeExample.readme_pssm /\
+  e2e_wc (EM.a_K GA.dna) LMScore.ReadmeExample.readme_pssm = true.
+Proof.
+  split; [now left|]. split; [lia|]. split; [reflexivity|]. split; [constructor|]. split.
+  { apply (encode_nat_accepts GA.dna Readme.enc Readme.junk Readme.text (abc_ok_of GA.dna (or_introl eq_refl))).
+    eexists. exact e2e_readme_encodes. }
+  split; [cbn; lia|]. split; [|vm_compute; reflexivity].
+  unfold LMScore.ReadmeExample.readme_pssm, LMScore.ReadmeExample.readme_pssm_bits. cbn [map].
+  repeat (constructor; [reflexivity|]). constructor.
+Qed.
+
+(* hence the conclusion, for every dispatcher arm and block size: the hit set is exactly the
+   positions of the README sequence whose C01 score is >= -10.0 *)
+Example e2e_readme_scan :
+  forall (am : arm) (B : nat), 1 <= B ->
+  exists H : list (nat * F32.t),
+    Readme.scan am B = Ok H /\
+    (forall i x, In (i, x) H <->
+       i + 15 <= 64 /\
+       F32.ge (SCO.score_def F32.add F32.zero 4 LMScore.ReadmeExample.readme_pssm LMScore.ReadmeExample.readme_seq i)
+              Readme.thr = true /\
+       x = SCO.score_def F32.add F32.zero 4 LMScore.ReadmeExample.readme_pssm LMScore.ReadmeExample.readme_seq i) /\
+    NoDup (map fst H).
+Proof.
+  intros am B HB.
+  destruct e2e_readme_hypotheses as (HA & HC & Hbe & Hold & Htext & HM & Hrows & Hwc).
+  destruct (e2e_text_to_hits_well_conditioned GA.dna 32 Readme.enc Readme.junk Readme.text Readme.be SM.s_default
+              LMScore.ReadmeExample.readme_pssm am Readme.thr B HA HC Hbe Hold Htext HM Hrows Hwc HB)
+    as (sq & H & Henc & _ & Hs & Hin & Hnd).
+  rewrite e2e_readme_encodes in Henc. inversion Henc; subst sq.
+  exists H. split; [exact Hs|]. split; [exact Hin|exact Hnd].
+Qed.
+
+(* what the models compute there: three positions qualify (18 is the README's best position);
+   different arms / block sizes yield them in different orders; the scanner on the kernel
+   models (AVX2 PSHUFB u8 scoring, max_epu8, generic threshold, coq/score's score_position)
+   yields the same list; max() returns position 18 *)
+Example e2e_readme_runs :
+  Readme.bits (Readme.scan Avx2 256) = [(27, 3234719710%Z); (32, 3239010474%Z); (18, 3232763308%Z)] /\
+  Readme.bits (Readme.scan Generic 1) = [(32, 3239010474%Z); (18, 3232763308%Z); (27, 3234719710%Z)] /\
+  Readme.bits (e2e_scan_kernels GA.dna Readme.enc Readme.junk Readme.text Readme.be SM.s_default
+                 LMScore.ReadmeExample.readme_pssm Avx2 Readme.pads Readme.thr 256)
+    = [(27, 3234719710%Z); (32, 3239010474%Z); (18, 3232763308%Z)] /\
+  option_map (fun h => (fst h, F32.to_bits (snd h)))
+    (unres None (e2e_scan_max GA.dna 32 Readme.enc Readme.junk Readme.text Readme.be SM.s_default
+                   LMScore.ReadmeExample.readme_pssm Avx2 Readme.thr 256)) = Some (18, 3232763308%Z) /\
+  map (fun i => F32.to_bits (SCO.score_def F32.add F32.zero 4 LMScore.ReadmeExample.readme_pssm
+                               LMScore.ReadmeExample.readme_seq i)) [18; 27; 32]
+    = [3232763308; 3234719710; 3239010474]%Z.
+Proof. vm_compute. repeat split; reflexivity. Qed.
+
+(* the numeric hypothesis matters: the pipeline on coq/disc's ill-conditioned witness class is
+   outside e2e_wc (known finding F14); the predicate is false there, true on the README matrix *)
+Example e2e_wc_discriminates :
+  e2e_wc 5 LMScore.ReadmeExample.readme_pssm = true /\
+  e2e_wc 5 (map (map F32.of_bits)
+              [[1203982341; 1203982341; 1203982342; 1203982341; 4286578688];
+               [1203982342; 1203982336; 1203982339; 1203982342; 4286578688]]%Z) = false.
+Proof. vm_compute. split; reflexivity. Qed.
